@@ -101,6 +101,65 @@ class _ActorSide:
         os.stat = stat
         os.lstat = lstat
 
+    def install_open_patch(self):
+        """write() and close() of files opened for writing under the root become scheduling points
+        (the data of an in-place write only reaches the file at flush/close)."""
+        import builtins
+        import io
+        import shutil
+
+        real_open = builtins.open
+        side = self
+
+        class Proxy:
+            def __init__(self, real, rel):
+                object.__setattr__(self, "_real", real)
+                object.__setattr__(self, "_rel", rel)
+
+            def write(self, data):
+                side.gate("write", [self._rel], True)
+                return self._real.write(data)
+
+            def close(self):
+                if not self._real.closed:
+                    side.gate("close", [self._rel], True)
+                return self._real.close()
+
+            def __enter__(self):
+                self._real.__enter__()
+                return self
+
+            def __exit__(self, *a):
+                if not self._real.closed:
+                    side.gate("close", [self._rel], True)
+                return self._real.__exit__(*a)
+
+            def __getattr__(self, name):
+                return getattr(self._real, name)
+
+            def __setattr__(self, name, value):
+                setattr(self._real, name, value)
+
+            def __iter__(self):
+                return iter(self._real)
+
+        def patched(file, mode="r", *a, **kw):
+            f = real_open(file, mode, *a, **kw)
+            try:
+                if isinstance(file, (str, bytes, os.PathLike)) and any(c in mode for c in "wax+"):
+                    p = os.path.normpath(os.path.abspath(os.fspath(file)))
+                    if isinstance(p, bytes):
+                        p = os.fsdecode(p)
+                    if p == side.root or p.startswith(side.root + os.sep):
+                        return Proxy(f, os.path.relpath(p, side.root))
+            except Exception:
+                pass
+            return f
+
+        builtins.open = patched
+        io.open = patched
+        shutil._USE_CP_SENDFILE = False
+
 
 def _actor_main(index, root, script_fn, to_ctrl, from_ctrl):
     code = 0
@@ -116,6 +175,7 @@ def _actor_main(index, root, script_fn, to_ctrl, from_ctrl):
         uuid.uuid4 = fake_uuid4
         side = _ActorSide(root, to_ctrl, from_ctrl)
         side.install_stat_patch()
+        side.install_open_patch()
         sess = fsmon.Session([root], on_step=side.on_event)
         result = {"ok": True, "values": None, "error": None}
         with sess:
